@@ -126,6 +126,53 @@ def case_st(draw):
     return case
 
 
+FAULT_SITES = ["on_attempt_start", "on_attempt_end", "on_attempt_end", "classifier", "result_classifier", "strategy", "handler", "sleeper", "abort_if", "before_sleep", "on_metric", "on_log"]
+
+
+@st.composite
+def fault_case(draw):
+    case = draw(case_st())
+    case["placement"] = {**(case.get("placement") or {}), "attempt_hooks": draw(st.sampled_from(["call", "policy"]))}
+    is_async = case["entry"].startswith("Async")
+    kinds = ["CallbackFault", "CallbackFault", "KeyboardInterrupt", "SystemExit"] + (["CancelledError"] if is_async else [])
+    case["fault"] = [draw(st.sampled_from(FAULT_SITES)), draw(st.sampled_from([0, 0, 1, 2, 3])), draw(st.sampled_from(kinds))]
+    if case["fault"][0] == "abort_if":
+        for c in case["calls"]:
+            if c.get("abort") is None:
+                c["poll"] = True
+    return case
+
+
+def check_under_fault(case: dict) -> Verdict:
+    """Exactly one record per admitted call also when one of the caller's callbacks raises somewhere in the run."""
+    v = Verdict()
+    has_retry = ".noretry." not in case["entry"]
+    if not has_retry:
+        case = {**case, "cfg": {**case["cfg"], "result_classifier": False}}
+    site, j, kind = case["fault"]
+    env, cvs = C.run(case, faults={(site, j): kind})
+    fired = any(e[0] == "fault" for e in env.trace)
+    for cv in cvs:
+        brk = [e for e in cv.events if e[0] == "brk"]
+        allows = [e for e in brk if e[1] == "allow"]
+        records = [e for e in brk if e[1] != "allow"]
+        if not allows or not allows[0][3][0]:
+            if records and allows:
+                v.fail("C09:fault:record-for-rejected-call", f"rejected call reported {[r[1] for r in records]}")
+            continue
+        hit = any(e[0] == "fault" for e in cv.events)
+        tag = f"{'retry' if has_retry else 'noretry'}:{case['entry'].split('.')[-1]}:{site}-raises-{kind}" if hit else "no-fault-in-this-call"
+        if len(records) == 0:
+            v.fail(f"C09:fault:no-record:{tag}", f"admitted call #{cv.j} ({len(cv.atts)} attempts) reported nothing to the breaker")
+        elif len(records) > 1:
+            v.fail(f"C09:fault:multiple-records:{tag}", f"admitted call #{cv.j} reported {[(r[1], r[2]) for r in records]} ({len(cv.atts)} attempts)")
+        if hit:
+            v.tag(f"fault:{site}", f"fault-kind:{kind}")
+    v.nontrivial = fired
+    v.tag("fault-fired" if fired else "fault-not-reached", "entry:" + case["entry"])
+    return v
+
+
 PROP = Property(
     id="C09",
     level="exploration",
@@ -137,5 +184,8 @@ PROP = Property(
         "value, cancel iff aborted/cancelled, failure(K) with K the class of the final recorded failure otherwise. Non-trivial = "
         "an admitted call with >= 2 attempts or ended by abort / cancellation / deferral."
     ),
-    streams=[Stream("records", check, strategy=case_st(), quick=12000, thorough=300000)],
+    streams=[
+        Stream("records", check, strategy=case_st(), quick=12000, thorough=300000),
+        Stream("under_callback_faults", check_under_fault, strategy=fault_case(), quick=6000, thorough=150000),
+    ],
 )
